@@ -92,6 +92,9 @@ class _Rewriter(ast.NodeTransformer):
         return node
 
 
+_CODE_CACHE = {}  # (path, mtime) -> (code, rewrite counts); per process, rebuilt from the tree on every run
+
+
 class ShadowPackage:
     """One private copy of the library running on proxies."""
 
@@ -163,23 +166,42 @@ class _Finder(importlib.abc.MetaPathFinder, importlib.abc.Loader):
 
     def exec_module(self, module):
         p = module.__spec__.origin
-        with open(p, "r", encoding="utf-8") as fh:
-            src = fh.read()
-        tree = ast.parse(src, filename=p)
-        rw = _Rewriter()
-        tree = rw.visit(tree)
-        ast.fix_missing_locations(tree)
-        code = compile(tree, p, "exec", dont_inherit=True)
-        self.sp.rewrites[module.__name__] = rw.counts
+        key = (p, os.stat(p).st_mtime_ns)
+        hit = _CODE_CACHE.get(key)
+        if hit is None:
+            with open(p, "r", encoding="utf-8") as fh:
+                src = fh.read()
+            tree = ast.parse(src, filename=p)
+            rw = _Rewriter()
+            tree = rw.visit(tree)
+            ast.fix_missing_locations(tree)
+            hit = _CODE_CACHE[key] = (compile(tree, p, "exec", dont_inherit=True), rw.counts)
+        code, counts = hit
+        self.sp.rewrites[module.__name__] = counts
         self.sp.files[module.__name__] = p
         module.__dict__["__builtins__"] = self.sp.builtins
         module.__file__ = p
         exec(code, module.__dict__)
 
 
-def load_real(src_root=None, pkg=PKG):
-    """The genuine package from the same tree (for replays / concrete validation)."""
+def load_real(src_root=None, pkg=PKG, fresh=False):
+    """The genuine package from the same tree (for replays / concrete validation).
+    fresh=True re-imports it (new module objects, so no state survives from earlier use)."""
     root = src_root or REPO_SRC
     if root not in sys.path:
         sys.path.insert(0, root)
+    if fresh:
+        saved = {k: v for k, v in sys.modules.items() if k == pkg or k.startswith(pkg + ".")}
+        for k in saved:
+            del sys.modules[k]
+        try:
+            mod = importlib.import_module(pkg)
+            for sub in ("asn1", "_session", "_messages", "_filter", "_controls", "_authentication", "schema"):
+                importlib.import_module(f"{pkg}.{sub}")
+            mods = {k: v for k, v in sys.modules.items() if k == pkg or k.startswith(pkg + ".")}
+        finally:
+            for k in [k for k in sys.modules if k == pkg or k.startswith(pkg + ".")]:
+                del sys.modules[k]
+            sys.modules.update(saved)
+        return mods
     return importlib.import_module(pkg)
